@@ -17,6 +17,8 @@ NONLREC = {
     'named_retry': [('start', A(S(N('x', C('r')), N('y', T('b'))), S(N('x', C('r')), N('z', C('r'))))), ('r', A(T('a'), T('b')))],
     'nested_rules': [('start', A(S(C('p'), T('c')), C('p'))), ('p', A(S(C('r'), T('b')), C('r'))), ('r', A(T('a'), S(T('('), C('p'), T(')'))))],
     'join_of_rule': [('start', S(JOIN(T(','), C('r'), True), EOF_)), ('r', A(S(T('a'), CUT, OPT(T('b'))), T('b')))],
+    # rule names that differ only by leading/trailing underscores are different rules with different memo entries
+    'underscore_names': [('start', A(S(C('x_'), T('b')), S(C('x'), T('c')), S(C('_x'), C('x'), T('d')))), ('x', A(T('a'), P('[xy]'))), ('x_', S(T('a'), OPT(T('a')))), ('_x', P('a?'))],
     'failing_rule_memo': [('start', A(S(C('r'), T('x')), S(C('q'), T('y')), P('.+'))), ('r', S(T('a'), T('b'))), ('q', A(C('r'), T('a')))],
 }
 # a left-recursive component with two cycles through one leader: the non-leader members are retried at the same position while the
@@ -113,7 +115,7 @@ def plan(tier, seed):
                       params=[('cap', 1, 4)] + [p for i in range(k) for p in ((f'op{i}', 0, 3), (f'k{i}', 0, 3), (f'v{i}', 0, 2))],
                       budget=400 if k < 4 else 3000, group='B', require_tags=('evicted',)))
     obs.append(Ob(name='C_memokey', factory='vt.props.c04:make_memokey', spec={},
-                  params=[('p1', 0, 3), ('p2', 0, 3), ('r1', 0, 3), ('r2', 0, 3), ('s1', 0, 2), ('s2', 0, 2)], budget=400, group='C', require_tags=('equal', 'distinct')))
+                  params=[('p1', 0, 2), ('p2', 0, 2), ('r1', 0, 5), ('r2', 0, 5), ('s1', 0, 2), ('s2', 0, 2)], budget=400, group='C', require_tags=('equal', 'distinct')))
     return {
         'obligations': obs,
         'level': 'other',
@@ -173,7 +175,7 @@ def make_boundeddict(spec):
 def make_memokey(spec):
     """MemoKey equality <=> same position and same rule name, also as dict key (what memo/memoize need)."""
     from tatsu.contexts.infos import MemoKey, RuleInfo
-    names = ['a', 'b', 'c']
+    names = ['a', 'b', 'a_', '_', '__']      # (names that differ only by underscores are different rules)
 
     def ri(i, variant):
         def f(ctx):
@@ -182,13 +184,17 @@ def make_memokey(spec):
         # two RuleInfo objects for the same rule (as produced for different instances) must be the same key
         return RuleInfo.new(object() if variant else None, f)
 
-    infos = [[ri(i, v) for v in (0, 1)] for i in range(3)]
+    infos = [[ri(i, v) for v in (0, 1)] for i in range(len(names))]
 
     def body(args):
         p1, p2, r1, r2, s1, s2 = args
         try:
-            row1 = infos[0] if r1 == 0 else (infos[1] if r1 == 1 else infos[2])
-            row2 = infos[0] if r2 == 0 else (infos[1] if r2 == 1 else infos[2])
+            row1 = row2 = infos[0]
+            for i in range(1, len(names)):
+                if r1 == i:
+                    row1 = infos[i]
+                if r2 == i:
+                    row2 = infos[i]
             a = row1[0] if s1 == 0 else row1[1]
             b = row2[0] if s2 == 0 else row2[1]
             k1 = MemoKey(p1, a)
